@@ -90,6 +90,123 @@ def ranges_feeding(b, operand):
     return out, sorted(set(idx))
 
 
+VIEW_SAME = ('try_into', 'try_from', 'unwrap', 'expect', 'as_ref', 'as_mut', 'as_slice', 'as_mut_slice', 'deref', 'deref_mut', 'borrow', 'borrow_mut', 'into', 'from', 'unwrap_unchecked')
+
+
+def _const_of(b, op):
+    v = op_const_bits(op)
+    if v is None:
+        ol = op_local(op)
+        if ol is not None:
+            for x in b.trace_local(ol):
+                if x[0] == 'const' and op_const_bits(x[2]) is not None:
+                    v = op_const_bits(x[2])
+    return v
+
+
+def slice_view(b, l, depth=0):
+    """Byte window denoted by the slice / array (reference) held in local l, relative to the buffer it was cut
+    from: (root, start, end) with root = ('param', i) | ('local', l) | ('call', point); end may be None (open).
+    Follows re-borrows, x[a..b], split_at(k).0/.1, first_chunk, try_into().unwrap(), [x[i], x[i+1], ..]."""
+    if l is None or depth > 16:
+        return None
+    ds = b.defs.get(l, [])
+    if not ds:
+        return (('param', l), 0, None) if 1 <= l <= b.arg_count else None
+    if len(ds) != 1:
+        return (('local', l), 0, None)
+    (p, kind, data) = ds[0]
+    def shift(v, a, e_):
+        if v is None:
+            return None
+        (root, s0, e0) = v
+        ns = None if (s0 is None or a is None) else s0 + a
+        ne = (None if (s0 is None or e_ is None) else s0 + e_) if e_ is not None else e0
+        return (root, ns, ne)
+    if kind == 'call':
+        cs = data
+        m = method_name(cs.name)
+        if re.search(r'ops::Index(Mut)?<std::ops::Range', cs.name) or (m in ('index', 'index_mut') and len(cs.args) == 2):
+            base = slice_view(b, cs.arg_local(0), depth + 1)
+            rl = cs.arg_local(1)
+            rng = None
+            for o in (b.trace_local(rl) if rl is not None else []):
+                if o[0] == 'rv' and o[2]['k'] == 'agg' and o[2].get('agg') == 'adt' and re.search(r'ops::Range(To|From|Full)?$', o[2]['adt']):
+                    rng = range_consts(b, o[2])
+            is_full = any(o[0] == 'rv' and o[2]['k'] == 'agg' and re.search(r'ops::RangeFull$', o[2].get('adt') or '') for o in (b.trace_local(rl) if rl is not None else []))
+            if is_full:
+                return base
+            if rng is None or base is None or (rng[0] is None):
+                # dynamic start (or unknown base): the result is a fresh window, later constant cuts are relative to it
+                if rng is not None and rng[0] is None and rng[1] is not None and base is not None and re.search(r'ops::RangeTo', ' '.join(o[2].get('adt') or '' for o in b.trace_local(rl) if o[0] == 'rv' and o[2]['k'] == 'agg')):
+                    return shift(base, 0, rng[1])
+                return (('view', cs.point), 0, None)
+            return shift(base, rng[0], rng[1])
+        if m in ('first_chunk', 'first_chunk_mut'):
+            mm = re.search(r'first_chunk(_mut)?::<(\d+)>', cs.name)
+            base = slice_view(b, cs.arg_local(0), depth + 1)
+            return shift(base, 0, int(mm.group(2))) if mm else None
+        if m in VIEW_SAME and cs.args:
+            return slice_view(b, cs.arg_local(0), depth + 1)
+        return (('call', cs.point), 0, None)
+    if kind == 'assign' and not data['place']['p']:
+        rv = data['rv']
+        if rv['k'] in ('use', 'ref', 'cast', 'rawptr'):
+            pl = rv['place'] if rv['k'] in ('ref', 'rawptr') else (rv['op']['place'] if rv['op']['k'] in ('copy', 'move') else None)
+            if pl is None:
+                return None
+            proj = [e for e in pl['p'] if e['k'] != 'deref']
+            if not proj:
+                return slice_view(b, pl['l'], depth + 1)
+            flds = [e for e in proj if e['k'] == 'field']
+            if len(proj) == 1 and flds:
+                # field of a tuple produced by split_at(k)
+                src = b.single_def(pl['l'])
+                if src and src[1] == 'call' and re.search(r'::split_at(_mut|_checked|_mut_checked|_unchecked)?$', src[2].name):
+                    base = slice_view(b, src[2].arg_local(0), depth + 1)
+                    k = _const_of(b, src[2].args[1]) if len(src[2].args) > 1 else None
+                    if k is None:
+                        return None
+                    return shift(base, 0, k) if flds[0]['i'] == 0 else shift(base, k, None)
+                if src and src[1] == 'call' and re.search(r'::split_first_chunk(_mut)?::<(\d+)>', src[2].name):
+                    k = int(re.search(r'::<(\d+)>', src[2].name).group(1))
+                    base = slice_view(b, src[2].arg_local(0), depth + 1)
+                    return shift(base, 0, k) if flds[0]['i'] == 0 else shift(base, k, None)
+                # payload of Some(..) / Ok(..) of a view-preserving call
+                return slice_view(b, pl['l'], depth + 1) if flds[0].get('variant') in ('Some', 'Ok', 'Continue') else None
+            if all(e['k'] in ('field', 'downcast') for e in proj) and flds and flds[-1].get('variant') in ('Some', 'Ok', 'Continue'):
+                return slice_view(b, pl['l'], depth + 1)
+            return None
+        if rv['k'] == 'agg' and rv.get('agg') == 'array':
+            idxs = []
+            root = None
+            for o in rv['ops']:
+                if o['k'] not in ('copy', 'move'):
+                    return None
+                pl = o['place']
+                ie = [e for e in pl['p'] if e['k'] in ('index', 'cindex')]
+                if len(ie) != 1:
+                    return None
+                if ie[0]['k'] == 'index':
+                    v = None
+                    for x in b.trace_local(ie[0]['local']):
+                        if x[0] == 'const' and op_const_bits(x[2]) is not None:
+                            v = op_const_bits(x[2])
+                else:
+                    v = None if ie[0].get('from_end') else ie[0]['offset']
+                if v is None:
+                    return None
+                base = slice_view(b, pl['l'], depth + 1)
+                if base is None or (root is not None and base[0] != root[0]):
+                    return None
+                root = base
+                idxs.append(v)
+            if idxs and idxs == list(range(idxs[0], idxs[0] + len(idxs))) and root is not None:
+                return shift(root, idxs[0], idxs[0] + len(idxs))
+            return None
+    return None
+
+
 def reader_layout(b):
     """[(type, start, end)] for from_le_bytes calls in reader body b"""
     out = []
@@ -97,6 +214,10 @@ def reader_layout(b):
         rs, idx = ranges_feeding(b, cs.args[0])
         w = WIDTH.get(t)
         span = None
+        v = slice_view(b, op_local(cs.args[0]))
+        if v is not None and v[1] is not None and (v[2] is None or v[2] - v[1] == w):
+            out.append((t, endian, (v[1], v[1] + w), cs))
+            continue
         for (s, e) in rs:
             if s is not None and e is not None and e - s == w:
                 span = (s, e)
@@ -115,6 +236,10 @@ def writer_layout(b):
         span = None
         for c2 in b.calls:
             if c2.name.endswith('copy_from_slice') and len(c2.args) > 1 and fl.op_tainted(c2.args[1], tnt):
+                v = slice_view(b, op_local(c2.args[0]))
+                if v is not None and v[1] is not None and (v[2] is None or v[2] - v[1] == WIDTH.get(t)):
+                    span = (v[1], v[1] + WIDTH.get(t))
+                    continue
                 rs, idx = ranges_feeding(b, c2.args[0])
                 for (s, e) in rs:
                     if s is not None and e is not None and e - s == WIDTH.get(t):
@@ -191,6 +316,12 @@ def cd2(ctx):
             seen += 1
             ctx.check(c['op'] in ('Lt', 'Ge'), '%s:hdr-cmp#%d' % (b.path, seen), where(b, c['point']), 'comparison normalises to `remaining < HEADER_LEN` (%s)' % c['op'],
                       'header-room predicate is `remaining %s HEADER_LEN`, not `<`/`>=`: with exactly HEADER_LEN bytes left one side pads / skips where the other expects a header (every later entry is lost at the next open)' % {'Le': '<=', 'Gt': '>', 'Eq': '==', 'Ne': '!='}.get(c['op'], c['op']))
+        # `remaining.checked_sub(HEADER_LEN)` is the `remaining >= HEADER_LEN` test and the subtraction in one, exact by construction
+        for cs in b.calls:
+            if re.search(r'core::num::<impl usize>::checked_sub$', cs.name) and len(cs.args) > 1 and (op_const_named(cs.args[1]) or '').endswith('frame::header::HEADER_LEN'):
+                n += 1
+                seen += 1
+                ctx.check(True, '%s:hdr-cmp#%d' % (b.path, seen), where(b, cs.point), 'checked_sub(HEADER_LEN): Some exactly when remaining >= HEADER_LEN', '')
     if n < 3:
         ctx.missing('comparisons', 'expected 3 comparisons with HEADER_LEN in the frame writer/reader, found %d' % n)
     # polarity on the writer side: padding is written exactly when `remaining < HEADER_LEN`
@@ -233,6 +364,10 @@ def cd2b(ctx):
                 if st['k'] == 'assign' and st['rv']['k'] == 'binop' and st['rv']['op'].startswith('Sub') and (op_const_named(st['rv']['b']) or '').endswith('frame::header::HEADER_LEN') and not op_const_named(st['rv']['a']):
                     subs.append(b.pstart[bi] + si)
         comps = const_comparisons(ctx, b, 'frame::header::HEADER_LEN')
+        for cs in b.calls:
+            if re.search(r'core::num::<impl usize>::checked_sub$', cs.name) and len(cs.args) > 1 and (op_const_named(cs.args[1]) or '').endswith('frame::header::HEADER_LEN'):
+                n += 1
+                ctx.check(True, '%s:sub-on-ge-edge' % b.path, where(b, cs.point), 'remaining.checked_sub(HEADER_LEN): guarded by construction', '')
         for sp in subs:
             n += 1
             ok = False
@@ -322,6 +457,11 @@ def fn_table_enum_to_bool(ctx, b):
                     # exclusive: not reachable from edges of other variants that lead elsewhere
                     if not any(p in b.reach([e2[1]]) for v2, e2 in edges.items() if v2 != v and e2[1] != e[1]):
                         tab[v] = bool(op_const_bits(data['rv']['op']))
+        # `matches!(self, A | B)`: the remaining variants share the otherwise arm
+        if 'otherwise' in tab and adt:
+            for v in ctx.f.all_variants(adt):
+                tab.setdefault(v, tab['otherwise'])
+            del tab['otherwise']
     return tab
 
 
@@ -452,6 +592,15 @@ def cd4(ctx):
                             v = ctx.f.variant_by_discr('record::RecordType', a['bits']) if 'bits' in a else None
                             if v:
                                 k2t[k] = v
+            if k not in k2t:
+                # the arm only selects the type tag (e.g. builds a tuple), the encoder call follows the match
+                tags = set()
+                for bj, blk2 in enumerate(s.blocks):
+                    for si, st in enumerate(blk2['stmts']):
+                        if s.live[bj] and (s.pstart[bj] + si) in excl and st['k'] == 'assign' and st['rv']['k'] == 'agg' and strip_crate(st['rv'].get('adt') or '') == 'record::RecordType':
+                            tags.add(st['rv']['variant'])
+                if len(tags) == 1:
+                    k2t[k] = tags.pop()
     t2k = {}
     for (bi, pl, adt, edges) in d.discr_switches():
         if adt != 'record::RecordType':
@@ -862,7 +1011,8 @@ def cd8(ctx):
         # sinks: stores through dest and copy_from_slice on slices of dest
         sink_nodes = set()
         for (p, pl, rv) in b.stores:
-            if pl['l'] == 2 and rv['k'] == 'use':
+            v = slice_view(b, pl['l'])
+            if (pl['l'] == 2 or (v is not None and v[0] == ('param', 2))) and rv['k'] == 'use':
                 sink_nodes |= fl.backward(set(fl.op_nodes(rv['op'])), skip_mem=False)
         for c in b.calls:
             if c.name.endswith('copy_from_slice') and len(c.args) > 1:
@@ -1186,7 +1336,8 @@ def wr1(ctx):
         ctx.check(ok_ii, '%s:first-flag-cleared' % b.path, where(b, w.point), 'the is-first flag is set to false on every path round the loop',
                   'the first-frame flag is not cleared on every round: later frames of an entry would be typed First/Full and start a new entry at the reader')
         # (iii) loop exit on the `nothing remains` edge, and is_last passed to frame_type is that same test
-        empties = [(te, fe, cs) for (bi, c, te, fe, cs) in b.switches_on_call(lambda c: c.name.endswith('<impl [u8]>::is_empty')) if cs.block in L['blocks']]
+        from vocab import emptiness_tests
+        empties = [(te, fe, cs) for (te, fe, cs) in emptiness_tests(b, r'<impl \[u8\]>') if cs.block in L['blocks']]
         ok_iii = False
         for (te, fe, cs) in empties:
             te_out = b.points[te[1]][0] not in L['blocks'] or hdr not in b.reach([te[1]], avoid=outside)
